@@ -1,13 +1,14 @@
 """Sidecar contracts of the real functions of /repo (no file of the repository is edited)."""
-ALL = ['c_node', 'c_composed', 'c_adopt', 'c_frames', 'c_containers', 'c_merge', 'c_structural', 'b_merge']
+ALL = ['c_node', 'c_composed', 'c_adopt', 'c_frames', 'c_containers', 'c_merge', 'c_eval', 'c_structural', 'b_merge', 'b_eval']
 
 # evidence level per property (MANIFEST.level_claimed.category must agree)
-LEVELS = {'C02': 'other', 'C04': 'other', 'C05': 'other', 'C08': 'other', 'C15': 'other', 'C03': 'proof', 'C07': 'proof', 'C17': 'proof'}
+LEVELS = {'C09': 'other', 'C10': 'proof', 'C02': 'other', 'C04': 'other', 'C05': 'other', 'C08': 'other', 'C15': 'other', 'C03': 'proof', 'C07': 'proof', 'C17': 'proof'}
 _MIX = ('Mixed: (1) proof obligations generated from the current source of the functions listed under functions_under_contract and discharged by z3/cvc5 '
         '(counted in obligations/discharged); (2) BOUNDED stand-ins (listed under bounded_stand_ins, never counted as discharged) for the composed merge '
         '(ComposedNode.on_merge_impl, filter_nodes, ConfigList.on_merge_impl), whose functional one-level contract is not discharged yet: the real library '
         'is run end to end on generated small documents against an oracle written from the property statement. ')
 EXPLAIN = {
+    'C09': 'Mixed: proved obligations on XRefNode.on_evaluate_impl (the end of a chain is a non-reference node evaluated through the memoising context; termination invariant: no reference path is followed twice and a reference never leads back to itself; pigeonhole over the finitely many reference nodes is trusted) and on EvalContext.evaluate_node (memo by identity, hence aliasing); path parsing / lookup (EvalContext.get_node, NodePath.split_path: regular expressions) is assumed and covered by a BOUNDED watchdog check of whole builds over all small reference graphs.',
     'C02': _MIX + 'Proved: leaf rule (newer replaces unless the older is strictly stronger), index normalisation of list merges. Bounded: fold of 1-4 tag-free documents equals the recursive update.',
     'C04': _MIX + 'Proved: the two pruning predicates compare with the node at the same RELATIVE path (dominance obligation on the lookup), effective delete flag, inheritance of delete. Bounded: deleting merges against the replace-except-protected oracle.',
     'C05': _MIX + 'Proved: path-relativity of the pruning lookups (the only decisions that read a path). Bounded: wrap invariance of generated merge sequences under key chains that collide with inner key names.',
